@@ -134,6 +134,13 @@ func normalise(mod []*packages.Package, fset *token.FileSet, known map[string]bo
 		overlay[k] = v
 	}
 	changed := false
+	// a helper called in the init clause of an if statement: the clause is moved in front of
+	// the statement (inside a block that keeps the scope of what it declares), so that the
+	// call sits in a position the inliner handles; the inlining itself is the next pass
+	if n := hoistIfInits(mod, fset, known, overlay); n > 0 {
+		note(fmt.Sprintf("moved %d if-init clause(s) that call unknown helpers in front of their statements", n))
+		return overlay
+	}
 	for _, p := range mod {
 		info := p.TypesInfo
 		// candidates
@@ -951,6 +958,110 @@ func normalise(mod []*packages.Package, fset *token.FileSet, known map[string]bo
 		return nil
 	}
 	return overlay
+}
+
+// hoistIfInits rewrites `if INIT; COND { .. } [else ..]` into `{ INIT; if COND { .. } [else ..] }`
+// where INIT calls a module function that is not in the inventory.  Returns the number of
+// statements rewritten; the new texts are put into overlay.  Of nested candidates only the
+// outermost is rewritten in one pass.
+func hoistIfInits(mod []*packages.Package, fset *token.FileSet, known map[string]bool, overlay map[string][]byte) int {
+	total := 0
+	modPkgs := map[*types.Package]*packages.Package{}
+	for _, p := range mod {
+		modPkgs[p.Types] = p
+	}
+	unknownFn := func(fn *types.Func) bool {
+		p := modPkgs[fn.Pkg()]
+		if p == nil {
+			return false
+		}
+		for _, f := range p.Syntax {
+			for _, d := range f.Decls {
+				if fd, ok := d.(*ast.FuncDecl); ok && fd.Body != nil && p.TypesInfo.Defs[fd.Name] == types.Object(fn) {
+					return !known[funcKeyOf(p.PkgPath, fd)]
+				}
+			}
+		}
+		return false
+	}
+	type rewrite struct{ start, cond, end int }
+	for _, p := range mod {
+		info := p.TypesInfo
+		for _, f := range p.Syntax {
+			name := fset.File(f.Pos()).Name()
+			off := func(pos token.Pos) int { return fset.Position(pos).Offset }
+			var rws []rewrite
+			var stack []ast.Node
+			ast.Inspect(f, func(n ast.Node) bool {
+				if n == nil {
+					stack = stack[:len(stack)-1]
+					return true
+				}
+				stack = append(stack, n)
+				ifs, ok := n.(*ast.IfStmt)
+				if !ok || ifs.Init == nil || len(stack) < 2 {
+					return true
+				}
+				switch stack[len(stack)-2].(type) {
+				case *ast.BlockStmt, *ast.CaseClause, *ast.CommClause:
+				default:
+					return true // else-if, labelled statement ...
+				}
+				unknown := false
+				ast.Inspect(ifs.Init, func(m ast.Node) bool {
+					if ce, ok := m.(*ast.CallExpr); ok {
+						if fn := calledFunc(info, ce); fn != nil && unknownFn(fn) {
+							unknown = true
+						}
+					}
+					return true
+				})
+				if unknown {
+					rws = append(rws, rewrite{off(ifs.Pos()), off(ifs.Cond.Pos()), off(ifs.End())})
+				}
+				return true
+			})
+			if len(rws) == 0 {
+				continue
+			}
+			var b []byte
+			if ob, ok := overlay[name]; ok {
+				b = append([]byte{}, ob...)
+			} else if rb, err := os.ReadFile(name); err == nil {
+				b = rb
+			} else {
+				continue
+			}
+			sort.Slice(rws, func(i, j int) bool { return rws[i].start < rws[j].start })
+			var acc []rewrite
+			lastEnd := -1
+			for _, rw := range rws {
+				if rw.start >= lastEnd {
+					acc = append(acc, rw)
+					lastEnd = rw.end
+				}
+			}
+			for k := len(acc) - 1; k >= 0; k-- {
+				rw := acc[k]
+				// "if INIT; COND" : the init text ends at the semicolon in front of the condition
+				head := string(b[rw.start:rw.cond])
+				semi := strings.LastIndex(head, ";")
+				if !strings.HasPrefix(head, "if") || semi < 0 {
+					continue
+				}
+				initText := strings.TrimSpace(head[2:semi])
+				nb := append([]byte{}, b[:rw.start]...)
+				nb = append(nb, []byte("{ "+initText+"; if ")...)
+				nb = append(nb, b[rw.cond:rw.end]...)
+				nb = append(nb, []byte(" }")...)
+				nb = append(nb, b[rw.end:]...)
+				b = nb
+				total++
+			}
+			overlay[name] = b
+		}
+	}
+	return total
 }
 
 // inlDebug prints why a helper is not inlined (CHFCHECK_INLINE_DEBUG=1).
